@@ -111,48 +111,118 @@ theorem first_gap {z : Z} {r : Token × Z} (h : Step z r) :
     rw [hafter, List.append_assoc]
     exact mem_take_prefix (by omega) hsp
 
-theorem gaps_cons (input : Bytes) (prev : Nat) (t : Token) (rest : List Token) :
-    gaps input prev (t :: rest) =
-      (input.drop prev).take (t.pos.off - prev) ++ gaps input t.stop.off rest := rfl
+theorem isGapByte_eq (c : UInt8) : isGapByte c = isBlank c := rfl
 
-/-- Cover: everything that lies between the token extents is blanks and tabs. -/
-theorem lexS_covered (C : Classes) (n : Nat) (z : Z) (hn : z.after.length ≤ n) :
-    ∀ c ∈ gaps z.input z.before.length (lexS C z), isBlank c = true := by
-  induction n generalizing z with
+theorem gapOk_nil (ty : Option TokType) : gapOk ty [] = true := by
+  unfold gapOk; split
+  · exact wsOnly_nil
+  · rfl
+
+/-- blanks and tabs may follow whatever may lie behind a token -/
+theorem gapOk_append_blanks (ty : Option TokType) (g sp : Bytes) (hg : gapOk ty g = true)
+    (hsp : ∀ c ∈ sp, isBlank c = true) : gapOk ty (g ++ sp) = true := by
+  unfold gapOk at hg ⊢
+  split
+  · rename_i ht
+    rw [if_pos ht] at hg
+    exact wsOnly_append _ _ hg (wsOnly_blanks sp hsp)
+  · rename_i ht
+    rw [if_neg ht] at hg
+    rw [List.all_append, hg, Bool.true_and, List.all_eq_true]
+    exact fun c hc => hsp c hc
+
+/-- what a scan consumed behind the End of its token may lie behind a token of that type -/
+theorem gapOk_of_tail {ty : TokType} {tl : Bytes} (h : TailOk ty tl) : gapOk (some ty) tl = true := by
+  unfold TailOk at h
+  unfold gapOk
+  by_cases ht : ty = .text
+  · subst ht
+    simpa using h
+  · rw [if_neg ht] at h
+    have hne : ¬ ((some ty == some TokType.text) = true) := by simpa using ht
+    rw [if_neg hne]
+    split at h
+    · rcases h with rfl | rfl <;> decide
+    · subst h; rfl
+
+/-- the gap behind the token and the state behind it, as a decomposition of the consumed input -/
+theorem before_split_stop {r : Token × Z} (h : r.1.stop.off ≤ r.2.before.length) :
+    r.2.before.reverse = (r.2.before.drop (r.2.before.length - r.1.stop.off)).reverse ++ gapBehind r ∧
+      (r.2.before.drop (r.2.before.length - r.1.stop.off)).reverse.length = r.1.stop.off := by
+  constructor
+  · rw [gapBehind, ← List.reverse_append, List.take_append_drop]
+  · simp only [List.length_reverse, List.length_drop]; omega
+
+/-- Cover, from any state: `A ++ g` is what was consumed, `A` ends with the previous token
+    (type `ty`), `g` is the gap consumed behind it so far. -/
+theorem lexS_gapsOk (C : Classes) (n : Nat) (z : Z) (hn : z.after.length ≤ n) (ty : Option TokType)
+    (A g : Bytes) (hb : z.before.reverse = A ++ g) (hg : gapOk ty g = true) :
+    gapsOk z.input ty A.length (lexS C z) = true := by
+  induction n generalizing z ty A g with
   | zero =>
     have h0 : z.after = [] := List.eq_nil_of_length_eq_zero (by omega)
-    have hstep := next_step C z
-    rw [lexS_unfold, next_nil C h0] at *
-    simp only [mkTok, if_true, gaps_cons]
-    intro c hc
-    rcases List.mem_append.mp hc with hc | hc
-    · exact first_gap hstep c hc
-    · simp only [gaps, Z.position] at hc
-      rw [input_drop_before, h0] at hc
-      simp at hc
+    have hlen : z.before.length = A.length + g.length := by
+      have := congrArg List.length hb; simpa using this
+    rw [lexS_unfold, next_nil C h0]
+    simp only [mkTok, if_true, gapsOk, Z.position, Z.input, hb, h0, List.append_nil, Bool.and_eq_true]
+    constructor
+    · rw [List.drop_left, hlen, Nat.add_sub_cancel_left, List.take_length]
+      exact hg
+    · rw [← hb]
+      have : z.before.length = z.before.reverse.length := by simp
+      rw [this, List.drop_length]
+      exact gapOk_nil _
   | succ n ih =>
     have hres := next_res C z
     have hstep := next_step C z
+    have hlen : z.before.length = A.length + g.length := by
+      have := congrArg List.length hb; simpa using this
+    -- the gap in front of the token: `g` and the blanks `skipSpaces` stepped over
+    have hfirst : ∀ sp rest, (∀ c ∈ sp, isBlank c = true) → z.after = sp ++ rest →
+        (next C z).1.pos.off = z.before.length + sp.length →
+        gapOk ty ((z.input.drop A.length).take ((next C z).1.pos.off - A.length)) = true := by
+      intro sp rest hsp hafter hpo
+      rw [Z.input, hb, hafter, List.append_assoc, List.drop_left, hpo, hlen, ← List.append_assoc]
+      have : A.length + g.length + sp.length - A.length = (g ++ sp).length := by simp; omega
+      rw [this, List.take_left]
+      exact gapOk_append_blanks ty g sp hg hsp
+    -- behind the token
+    have hnext : (next C z).1.stop.off ≤ (next C z).2.before.length → 
+        gapOk (some (next C z).1.ty) (gapBehind (next C z)) = true →
+        (next C z).2.after.length ≤ n →
+        gapsOk z.input (some (next C z).1.ty) (next C z).1.stop.off (lexS C (next C z).2) = true := by
+      intro hle htl hlt
+      obtain ⟨e1, e2⟩ := before_split_stop hle
+      have := ih (next C z).2 hlt (some (next C z).1.ty) _ _ e1 htl
+      rw [e2, hres.adv.input] at this
+      exact this
     rw [lexS_unfold]
     split
     · rename_i he
       have hr0 := (hres.eof he).1
-      intro c hc
-      rw [gaps_cons] at hc
-      rcases List.mem_append.mp hc with hc | hc
-      · exact first_gap hstep c hc
-      · simp only [gaps] at hc
-        rw [hres.stop_eq, ← hres.adv.input, input_drop_before, hr0] at hc
-        simp at hc
+      have hse := hres.stop_eof he
+      simp only [gapsOk, Bool.and_eq_true]
+      constructor
+      · cases hstep with
+        | tok sp pre hsp hpre hafter hbefore hline hty hpl hpo hstop =>
+          exact hfirst sp _ hsp (by rw [hafter, List.append_assoc]) hpo
+        | newline sp cr hsp hcr hafter hbefore hline hcol hstart hty hpl hpo hstop =>
+          rw [hty] at he; exact absurd he (by decide)
+      · rw [hse, ← hres.adv.input, input_drop_before, hr0]
+        exact gapOk_nil _
     · rename_i hne
       have hlt := next_lt_of_ne_eof C z hne
-      have hih := ih (next C z).2 (by omega)
-      intro c hc
-      rw [gaps_cons] at hc
-      rcases List.mem_append.mp hc with hc | hc
-      · exact first_gap hstep c hc
-      · rw [hres.stop_eq, ← hres.adv.input] at hc
-        exact hih c hc
+      simp only [gapsOk, Bool.and_eq_true]
+      cases hstep with
+      | tok sp pre hsp hpre hafter hbefore hline hty hpl hpo hstop =>
+        exact ⟨hfirst sp _ hsp (by rw [hafter, List.append_assoc]) hpo,
+          hnext hstop.le (gapOk_of_tail hstop.tail) (by omega)⟩
+      | newline sp cr hsp hcr hafter hbefore hline hcol hstart hty hpl hpo hstop =>
+        refine ⟨hfirst sp _ hsp (by rw [hafter, List.append_assoc]) hpo, hnext (by rw [hstop]; exact Nat.le_refl _) ?_ (by omega)⟩
+        have : gapBehind (next C z) = [] := by
+          simp [gapBehind, hstop, Z.position]
+        rw [this]
+        exact gapOk_nil _
 
 /-- Pure list fact: for an ordered stream the gaps and the token extents, concatenated in
     order, are the input — every byte lies in exactly one gap or one token extent. -/
